@@ -271,6 +271,29 @@ func main() {
 		}
 		t0 := time.Now()
 		resp := handle(&r)
+		if r.Reps > 1 {
+			// in-process repetitions (C12): the same request again; the first differing answer is attached
+			canon := func(x Resp) []byte {
+				c := Resp{}
+				for k, v := range x {
+					if k != "stack" {
+						c[k] = v
+					}
+				}
+				b, _ := json.Marshal(c)
+				return b
+			}
+			first := canon(resp)
+			for k := 1; k < r.Reps; k++ {
+				again := handle(&r)
+				b := canon(again)
+				if string(b) != string(first) {
+					resp["rep_diff"] = Resp{"at": k, "resp": again}
+					break
+				}
+			}
+			resp["reps_done"] = r.Reps
+		}
 		resp["us"] = time.Since(t0).Microseconds()
 		enc.Encode(resp)
 		w.Flush()
